@@ -64,12 +64,23 @@ def run(ctx, rep: Report, deep: bool = False):
     )
     bad = 0
     ncases = 0
-    for i in range(ctx.n(5, 60)):
+    for i in range(ctx.n(6, 60)):
         disc = G.random_disc(rng)
-        img, _ = G.serialize(disc, rng)
-        if i % 2 == 1:
+        if i % 3 == 2:
+            # the last thing on the disc is sample data: directory first, files contiguous, largest file last
+            w = G.random_words(rng, rng.choice([700, 4500, 9000]))
+            disc = G.Disc([G.Partition([G.Volume("TT", [G.SampleFile("HEAD", G.random_words(rng, 50)), G.SampleFile("TAIL", w)], dir_first=True)], sectors=14)])
+            img, _ = G.serialize(disc, rng, shapes=("contiguous",))
+        else:
+            img, _ = G.serialize(disc, rng)
+        if i % 3 == 1:
             img += bytes(rng.randrange(256) for _ in range(rng.choice([1, 100, 2047, 3000])))  # size not a multiple of 2048
             rep.feat("size_not_multiple_of_2048")
+        elif i % 3 == 2:
+            # "tight tail": a dump cut right after the last live byte, so the trailing partial 2048-byte block holds data
+            img = img.rstrip(b"\x00") + bytes(rng.choice([0, 1, 3]))
+            rep.feat("size_not_multiple_of_2048")
+            rep.feat("tight_tail_images")
         paths = FA.ls_paths(disc)[: ctx.n(6, 30)]
         with E.Scratch() as s:
             ds = deliveries(s, img)
@@ -109,7 +120,7 @@ def run(ctx, rep: Report, deep: bool = False):
         rep.feat("detect_all_audio_cue")
     rep.families["container"] = {"cases": ncases, "disagreements": bad}
     rep.sample({"family": "container", "deliveries": ["raw", "2352", "mdx", "cue-raw", "cue-2352"]})
-    rep.required_features = ["delivery_raw", "delivery_2352", "delivery_mdx", "delivery_cue-raw", "delivery_cue-2352", "size_not_multiple_of_2048"]
+    rep.required_features = ["delivery_raw", "delivery_2352", "delivery_mdx", "delivery_cue-raw", "delivery_cue-2352", "size_not_multiple_of_2048", "tight_tail_images"]
 
 
 def search(ctx, rep: Report):
